@@ -2353,3 +2353,79 @@ Section Stacks.
       + cbn in Hl. destruct Hl as [-> _]. exists r, (LPass :: restb). split; [exact E|]. cbn. auto.
   Qed.
 End Stacks.
+
+(** * The statements of Props/C05.v and Props/C16.v *)
+
+(** the run, the symbolic end state and the simulation relation at the end of the run *)
+Lemma capture_run_sim (f : cs_data -> bool) (key : N) (ids : list N) (p : prog) :
+  wf_prog_stale p -> single_threaded p = true ->
+  exists r st symf,
+    sub_run (layer_step f key) ids p empty_storage = ROk (r, st) /\ sym_run true p = Some symf /\
+    sim f key symf (spec_run f ids p) r st.
+Proof.
+  intros Hwf Hst. unfold wf_prog_stale, wf_prog_stale_b, wf_prog_gen_b in Hwf.
+  apply andb_true_iff in Hwf as [_ Hwf]. unfold sym_run in *.
+  destruct (wf_steps true (p_sites p) sym_init (p_ops p)) as [symf|] eqn:E; [|discriminate].
+  destruct (steps_refine f key (p_sites p) ids (p_ops p) sym_init a_init reg_init empty_storage symf
+              (sim_init f key) Hst E) as (r & st & Er & HS).
+  exists r, st, symf. unfold sub_run. auto.
+Qed.
+
+Theorem capture_refines_spec (f : cs_data -> bool) (ids : list N) (p : prog) :
+  wf_prog_stale p -> single_threaded p = true ->
+  storage_of (layer_run f ids p) = Some (spec_storage f ids p).
+Proof.
+  intros Hwf Hst. destruct (capture_refines_spec_key f layer_key0 ids p Hwf Hst) as [r E].
+  unfold layer_run. rewrite E. reflexivity.
+Qed.
+
+Theorem capture_total (f : cs_data -> bool) (ids : list N) (p : prog) :
+  wf_prog_stale p -> single_threaded p = true ->
+  exists r st, layer_run f ids p = ROk (r, st).
+Proof.
+  intros Hwf Hst. destruct (capture_refines_spec_key f layer_key0 ids p Hwf Hst) as [r E].
+  exists r, (spec_storage f ids p). exact E.
+Qed.
+
+Theorem capture_run_invariants (f : cs_data -> bool) (ids : list N) (p : prog) :
+  wf_prog_stale p -> single_threaded p = true ->
+  exists r st symf,
+    layer_run f ids p = ROk (r, st) /\ sym_run true p = Some symf /\
+    reg_inv symf r /\
+    (forall k s, reg_get r k = Some s ->
+       rs_ext s = if f (rs_meta s)
+                  then [(layer_key0, cap_rank f (a_spans (spec_run f ids p)) k)] else []) /\
+    (forall k, reg_present r k = a_open (spec_run f ids p) k) /\
+    st = build f (fun k => negb (reg_present r k)) (spec_run f ids p).
+Proof.
+  intros Hwf Hst. destruct (capture_run_sim f layer_key0 ids p Hwf Hst) as (r & st & symf & E & Es & HS).
+  exists r, st, symf. split; [exact E|]. split; [exact Es|]. split; [exact (sm_inv _ _ _ _ _ _ HS)|].
+  split; [|split].
+  - intros k s Hs. destruct (sm_span _ _ _ _ _ _ HS k s Hs) as (x & _ & Hm & _ & _ & He).
+    rewrite He, Hm. reflexivity.
+  - intros k. symmetry. apply (sim_open f layer_key0 _ _ _ _ k HS).
+  - exact (sm_st _ _ _ _ _ _ HS).
+Qed.
+
+Theorem stack_total (ids : list N) (p : prog) (ls : list layer) :
+  wf_prog_stale p -> single_threaded p = true -> stack_fresh ls = true -> NoDup (stack_keys ls) ->
+  exists r ls', stack_run ids p ls = ROk (r, ls').
+Proof.
+  intros Hwf Hst Hf Hnd. destruct (stacks_refine ids p Hwf Hst ls Hf Hnd) as (r & ls' & E & _).
+  exists r, ls'. exact E.
+Qed.
+
+Lemma Forall2_map_spec {A B} (g : A -> B) (P : A -> B -> Prop) l :
+  (forall a, P a (g a)) -> Forall2 P l (map g l).
+Proof. intros H. induction l; cbn; constructor; auto. Qed.
+
+Theorem layers_independent (ids : list N) (p : prog) (ls : list layer) :
+  wf_prog_stale p -> single_threaded p = true -> stack_fresh ls = true -> NoDup (stack_keys ls) ->
+  exists r ls', stack_run ids p ls = ROk (r, ls') /\
+    Forall2 (fun filter st => storage_of (layer_run filter ids p) = Some st)
+            (stack_filters ls) (stack_storages ls').
+Proof.
+  intros Hwf Hst Hf Hnd. destruct (stacks_refine ids p Hwf Hst ls Hf Hnd) as (r & ls' & E & Hs & _).
+  exists r, ls'. split; [exact E|]. rewrite Hs. apply Forall2_map_spec.
+  intros filter. apply capture_refines_spec; assumption.
+Qed.
